@@ -28,6 +28,7 @@ EXPLANATION = (
     "(D1x) every exit of a modifier method has the modifier's normal form (no value-dependent re-association such as inverse -> dagger); (D3f) the is_hermitian flag of every MatrixFactoryGate construction is absent, literal, forwarded or a sound Hermiticity test, with class attributes followed to their defining expression."
     ' Round 4: the peeling loop of a replace_params helper may live in a callee returning (base, modifiers).'
     ' Round 5: every exit of MatrixFactoryGate.dagger is self under is_hermitian or Dagger(self); the leaf replace_params keeps every field but the parameters (C06-D2).'
+    " Round 7: the controlled matrix's blocks may be bound to locals; the identity block's size is decided by evaluating the extracted integer expression on a grid of widths (D3)."
 )
 RULE_TEXT = "instances = (gate class, modifier method) pairs, delegating properties, matrix properties, constructions of MatrixFactoryGate; distinct by (rule, construct)"
 ASSUMPTIONS = [
